@@ -433,7 +433,13 @@ class Contrasts(metaclass=InterfaceMeta):
             )
 
         if sparse:
-            return scipy.sparse.linalg.inv(coding_matrix.tocsc())
+            inverse = scipy.sparse.linalg.inv(coding_matrix.tocsc())
+            if not spsparse.issparse(inverse):
+                # (the inverse of a 1 x 1 matrix comes back as a dense vector)
+                inverse = spsparse.csc_matrix(
+                    numpy.reshape(inverse, coding_matrix.shape)
+                )
+            return inverse
         return numpy.linalg.inv(coding_matrix)
 
     @abstractmethod
